@@ -10,6 +10,7 @@ import subprocess
 import sys
 
 ROOT = os.path.dirname(os.path.dirname(os.path.abspath(__file__)))
+REPO = os.environ.get("VERIF_REPO", "/repo")      # a scratch worktree may stand in for /repo
 SEEDED = os.path.join(ROOT, "seeded")
 
 
@@ -28,25 +29,25 @@ def main():
             patch = os.path.join(md, "patch.diff")
             if not os.path.exists(patch) or not k.startswith(only):
                 continue
-            rc, out = sh("git status --short", cwd="/repo")
+            rc, out = sh("git status --short", cwd=REPO)
             if out.strip():
-                print("ERROR: /repo is not clean:\n" + out)
+                print("ERROR: %s is not clean:\n" % REPO + out)
                 return 2
             r = {}
-            rc, out = sh("git apply %s" % patch, cwd="/repo")
+            rc, out = sh("git apply %s" % patch, cwd=REPO)
             r["applies"] = rc == 0
             if rc == 0:
                 try:
-                    rc, out = sh("/venv/bin/python -m pytest tests -q -p no:cacheprovider --deselect tests/test_e2e.py 2>&1 | tail -1", cwd="/repo")
+                    rc, out = sh("PYTHONPATH=%s/src /venv/bin/python -m pytest tests -q -p no:cacheprovider --deselect tests/test_e2e.py 2>&1 | tail -1" % REPO, cwd=REPO)
                     r["suite"] = out.strip()
-                    rc, out = sh("PYTHONPATH=/repo/src /venv/bin/python %s/demo.py" % md, cwd="/repo", timeout=600)
+                    rc, out = sh("PYTHONPATH=%s/src /venv/bin/python %s/demo.py" % (REPO, md), cwd=REPO, timeout=600)
                     r["demo_changed"] = rc
                     rc, out = sh("./check %s --tier quick" % pid, cwd=ROOT)
                     r["check_exit"] = rc
                     r["no_failing_input"] = "no-failing-input-found" in out
                 finally:
-                    sh("git checkout -- .", cwd="/repo")
-                rc, out = sh("PYTHONPATH=/repo/src /venv/bin/python %s/demo.py" % md, cwd="/repo", timeout=600)
+                    sh("git checkout -- .", cwd=REPO)
+                rc, out = sh("PYTHONPATH=%s/src /venv/bin/python %s/demo.py" % (REPO, md), cwd=REPO, timeout=600)
                 r["demo_clean"] = rc
             res[pid + "/" + k] = r
             if "--record" in sys.argv:
